@@ -19,31 +19,23 @@ Lemma shape_set_out s v : shape (set_out s v) = shape s. Proof. reflexivity. Qed
 Lemma shape_set_hints s v : shape (set_hints s v) = shape s. Proof. reflexivity. Qed.
 Lemma shape_set_globals s v : shape (set_globals s v) = shape s. Proof. reflexivity. Qed.
 
+(* break a hypothesis `match … = (r, s')` down to its leaves *)
+Ltac split_matches H :=
+  repeat match type of H with
+         | context [match ?x with _ => _ end] => let E := fresh "E" in destruct x eqn:E
+         | context [if ?x then _ else _] => let E := fresh "E" in destruct x eqn:E
+         | context [let '(_, _) := ?x in _] => let E := fresh "E" in destruct x eqn:E
+         end.
+
 Lemma run_prim_preserves A (p : prim A) : preserves (run_prim p).
 Proof.
-  unfold preserves. destruct p; cbn [run_prim]; intros s r s' H.
-  - inversion H; reflexivity.
-  - inversion H; reflexivity.
-  - destruct (nth_error (s_data s) (dl d)); inversion H; reflexivity.
-  - inversion H; reflexivity.
-  - destruct (nth_error (s_objs s) (ol o)); inversion H; reflexivity.
-  - inversion H; reflexivity.
-  - destruct (s_stacks s) as [|[|sc f] r0] eqn:E; try (inversion H; reflexivity).
-    destruct (scope_find sc name 0); inversion H; subst; try reflexivity.
-    unfold shape; cbn. rewrite E. reflexivity.
-  - inversion H; reflexivity.
-  - inversion H; reflexivity.
-  - inversion H; reflexivity.
-  - inversion H; reflexivity.
-  - inversion H; reflexivity.
-  - inversion H; reflexivity.
-  - inversion H; reflexivity.
-  - inversion H; reflexivity.
-  - inversion H; reflexivity.
-  - destruct (s_cb s) as [cnt fault]. inversion H; reflexivity.
-  - destruct (s_evals s) as [tbl cnt]. inversion H; reflexivity.
-  - inversion H; subst. destruct (s_call_params s) eqn:E; [reflexivity|].
-    unfold shape; cbn. rewrite E. reflexivity.
+  unfold preserves. destruct p; cbn [run_prim]; intros s r s' H;
+    try (split_matches H; inversion H; subst; reflexivity).
+  all: try (destruct (s_stacks s) as [|[|sc f] r0] eqn:E; try (inversion H; reflexivity);
+            destruct (scope_find sc name 0); inversion H; subst; try reflexivity;
+            unfold shape; cbn; rewrite E; reflexivity).
+  all: try (inversion H; subst; destruct (s_call_params s) eqn:E; [reflexivity|];
+            unfold shape; cbn; rewrite E; reflexivity).
 Qed.
 
 Definition push_shape (sh : list nat * nat * nat) : list nat * nat * nat :=
@@ -218,28 +210,12 @@ Definition growing {A} (m : M A) : Prop := forall s r s', m s = (r, s') -> grows
 
 Lemma run_prim_growing A (p : prim A) : growing (run_prim p).
 Proof.
-  unfold growing. destruct p; cbn [run_prim]; intros s r s' H.
-  - inversion H; subst; (left; reflexivity).
-  - inversion H; subst; (left; reflexivity).
-  - destruct (nth_error (s_data s) (dl d)); inversion H; subst; (left; reflexivity).
-  - inversion H; subst; (left; reflexivity).
-  - destruct (nth_error (s_objs s) (ol o)); inversion H; subst; (left; reflexivity).
-  - inversion H; subst; (left; reflexivity).
-  - destruct (s_stacks s) as [|[|sc f] r0] eqn:E; try (inversion H; subst; (left; reflexivity)).
-    destruct (scope_find sc name 0); inversion H; subst; [(left; reflexivity)|].
-    right. exists sc, f, r0, [(name, d)]. split; [assumption|reflexivity].
-  - inversion H; subst; (left; reflexivity).
-  - inversion H; subst; (left; reflexivity).
-  - inversion H; subst; (left; reflexivity).
-  - inversion H; subst; (left; reflexivity).
-  - inversion H; subst; (left; reflexivity).
-  - inversion H; subst; (left; reflexivity).
-  - inversion H; subst; (left; reflexivity).
-  - inversion H; subst; (left; reflexivity).
-  - inversion H; subst; (left; reflexivity).
-  - destruct (s_cb s) as [cnt fault]. inversion H; subst; (left; reflexivity).
-  - destruct (s_evals s) as [tbl cnt]. inversion H; subst; (left; reflexivity).
-  - inversion H; subst. destruct (s_call_params s); left; reflexivity.
+  unfold growing. destruct p; cbn [run_prim]; intros s r s' H;
+    try (split_matches H; inversion H; subst; left; reflexivity).
+  all: try (destruct (s_stacks s) as [|[|sc f] r0] eqn:E; try (inversion H; subst; left; reflexivity);
+            destruct (scope_find sc name 0); inversion H; subst; [left; reflexivity|];
+            right; exists sc, f, r0, [(name, d)]; split; [assumption|reflexivity]).
+  all: try (inversion H; subst; destruct (s_call_params s); left; reflexivity).
 Qed.
 
 Lemma scoped_exact A (m : M A) : growing m -> forall s r s', bracket push_scope pop_scope m s = (r, s') -> s_stacks s' = s_stacks s.
